@@ -1,5 +1,6 @@
 import TxdbusModel.Proofs.Bus.RouteMain
 import TxdbusModel.Proofs.Bus.RouteFull
+import TxdbusModel.Proofs.Bus.RouteSim
 import TxdbusModel.Properties.C12
 import TxdbusModel.Gen.Route
 /-!
@@ -385,6 +386,24 @@ theorem simple_rules_embed (b : Bool) (r : SimpleRule) (hne : r.NonEmpty) (m : M
   rw [this]
   simp [Txdbus.Route.Spec.optAll]
 
+/-- ... and whole histories: over simple rules without empty values, the first version of the model (`repaired`,
+`SimpleRule.holds`) and the full model on the embedded rules (`fullCfg b`, C12's `Rule.match`) produce the same
+outputs, event by event - deliveries, names, `loseConnection`, everything observable.  Every statement of sections
+1-6 about `exec repaired` is therefore a statement about the full model. -/
+theorem simple_histories_embed (b : Bool) (h : List (Event { r : SimpleRule // r.NonEmpty })) :
+    exec repaired State.init (h.map (Event.mapRule Subtype.val))
+      = exec (fullCfg b) State.init (h.map (Event.mapRule (fun r => r.1.toFull))) := by
+  let sub : Cfg { r : SimpleRule // r.NonEmpty } := { holds := fun r m => r.1.holds m }
+  have h1 : CfgAlong (Subtype.val : { r : SimpleRule // r.NonEmpty } → SimpleRule) sub repaired :=
+    ⟨fun _ _ => rfl, rfl, rfl⟩
+  have h2 : CfgAlong (fun r : { r : SimpleRule // r.NonEmpty } => r.1.toFull) sub (fullCfg b) :=
+    ⟨fun r m => simple_rules_embed b r.1 r.2 m, rfl, rfl⟩
+  have e1 := exec_map h1 State.init h
+  have e2 := exec_map h2 State.init h
+  rw [init_map] at e1 e2
+  rw [e1, e2]
+
+
 /-! ## the hypotheses are satisfiable, the statements are not vacuous -/
 
 section examples
@@ -553,6 +572,13 @@ theorem sender_constraint_is_ignored_full :
 example : SimpleRule.NonEmpty ruleI := by unfold SimpleRule.NonEmpty; decide
 example : (fullCfg false).holds ruleI.toFull (sigFrom 6) = ruleI.holds (sigFrom 6) := by decide
 
+/-- `simple_histories_embed` on the first example history (`setup` has one rule, on interface org.ex.I). -/
+example :
+    let h : List (Event SimpleRule) := setup ++ [Event.msg 0 (sigFrom 6) (.exec [])]
+    (exec repaired State.init h).map (·.deliveries)
+      = (exec (fullCfg false) State.init (h.map (Event.mapRule SimpleRule.toFull))).map (·.deliveries) := by
+  decide
+
 /-- Order of broadcasts on the example: the copy client 2 receives in the last step is the message of that step. -/
 example : (exec (fullCfg false) State.init (setupFull ++ [.msg 0 (fsig "/x/y" (some [.str (nm "hi")])) (.exec [])])).filterMap
       (firstBcast 0 2) = [{ fsig "/x/y" (some [.str (nm "hi")]) with sender := some (nm ":1.1") }] := by decide
@@ -591,6 +617,7 @@ end Txdbus.BusRoute
 #print axioms Txdbus.BusRoute.broadcast_order_preserved
 #print axioms Txdbus.BusRoute.broadcast_first_copies_in_order
 #print axioms Txdbus.BusRoute.simple_rules_embed
+#print axioms Txdbus.BusRoute.simple_histories_embed
 #print axioms Txdbus.BusRoute.arg0namespace_is_ignored
 #print axioms Txdbus.BusRoute.sender_constraint_is_ignored_full
 #print axioms Txdbus.BusRoute.ruleNsArg_wf
